@@ -228,3 +228,12 @@ def _hr_post(a, ret, st):
 
 
 hr.ensures("lossless_in_order", _hr_post)
+
+
+# ---- save_h5 refuses an empty collection (REGION: the guard at the top of ThetaHolder.save_h5; the rest of the function is covered by the
+# persistence scenario above for non-empty collections)
+import ast as _ast2
+sv0 = contract(TH + ".save_h5@empty_guard", params=[("self", T_holder()), ("fn", TStr)])
+sv0.region = (lambda st: isinstance(st, _ast2.If), lambda st: isinstance(st, _ast2.If) and isinstance(st.test, _ast2.Compare))
+sv0.raises("ValueError", lambda a: thetas(a.self).length == 0)
+sv0.ensures("non_empty_collections_pass_the_guard", lambda a, ret, st: thetas(a.self).length > 0)
